@@ -9,7 +9,10 @@ Not decided: reconstruction, isometry, ordering of singular values, triangularit
 """
 from __future__ import annotations
 
+import ast
+
 from . import e3, e6
+from ..core import astutil as A
 
 
 def run(chk):
@@ -34,6 +37,28 @@ def run(chk):
     _e6.run_WH(chk, "WH")
     from . import e10
     e10.run_U(chk, ("yastn.tensor.linalg", "yastn.tensor._merging"), floor1=5, floor2=1)
+    e10.run_U10(chk, ("yastn.backend.backend_np",))
+    run_S8(chk)
+
+
+def run_S8(chk):
+    """S8: scipy.sparse.linalg.svds returns the singular values of a block in *ascending* order; the block kernel promises them in
+    descending order within each sector (the truncation takes `[:k]`).  Every call of svds is followed, on every path to the statements
+    that store U/S/V, by the re-ordering (argsort of -S, or a [::-1] reversal) -- for every solver."""
+    from ..core.cfg import CFG
+    prog = chk.prog
+    chk.rule("S8", "every partial block SVD (scipy svds, ascending) is re-ordered to descending before it is stored, for every solver", floor=2)
+    f = prog.func("yastn.backend.backend_np", "svds_scipy")
+    cfg = CFG(f.node)
+    stmts = [n.ast for n in cfg.nodes if isinstance(n.ast, ast.stmt)]
+    calls = [st for st in stmts if isinstance(st, ast.Assign) and any(isinstance(c, ast.Call) and (A.call_name(c) or "").endswith("linalg.svds") for c in ast.walk(st.value))]
+    reorder = [st for st in stmts if isinstance(st, ast.Assign) and (("argsort(-" in A.text(st.value).replace(" ", "")) or "[::-1]" in A.text(st.value).replace(" ", ""))]
+    chk.require(calls, "svds_scipy: calls of scipy.sparse.linalg.svds not found")
+    for c in calls:
+        ok = bool(reorder) and cfg.always_followed(c, reorder)
+        chk.verdict("S8", (f, c), f"svds_scipy: `{A.short(c, 60)}` is followed by the descending re-order on every path", True if ok else False,
+                    f"svds_scipy(): after `{A.short(c, 60)}` some path reaches the stores of U/S/V without the re-ordering: scipy's svds returns ascending "
+                    f"singular values, so for that solver the sector comes out in ascending order and the truncation `[:k]` keeps the smallest")
 
 MUTANTS = [
     ('eigh maps legs with the inverse permutation', 'yastn/tensor/linalg.py', "    out_hl = tuple(a.trans[ax] for ax in out_hl)\n    out_hr = tuple(a.trans[ax] for ax in out_hr)\n    #\n    if not all(x == 0 for x in a.struct.n):\n        raise YastnError('eigh requires tensor charge to be zero.')", "    out_hl = tuple(a.trans.index(ax) for ax in out_hl)\n    out_hr = tuple(a.trans.index(ax) for ax in out_hr)\n    #\n    if not all(x == 0 for x in a.struct.n):\n        raise YastnError('eigh requires tensor charge to be zero.')", 'L1'),
